@@ -133,6 +133,32 @@ theorem par_pipeline_schedule_independent (s s' : Split) (f : α → β) (xs : L
     parMap s f xs = parMap s' f xs := by
   rw [parMap_eq_map, parMap_eq_map]
 
+/-! ### fold + reduce (not used by the library today; the law a parallel product loop must satisfy) -/
+
+/-- a parallel fold equals the sequential one under EVERY schedule when the step is "combine with the
+    image", the combiner is associative and the initial accumulator is its identity -/
+theorem parFold_eq_foldl {γ : Type} (s : Split) (e : γ) (op : γ → γ → γ) (g : α → γ)
+    (assoc : ∀ a b c, op (op a b) c = op a (op b c)) (idl : ∀ a, op e a = a) (idr : ∀ a, op a e = a)
+    (xs : List α) :
+    parFold s e (fun acc x => op acc (g x)) op xs = xs.foldl (fun acc x => op acc (g x)) e := by
+  have key : ∀ (ys : List α) (a : γ),
+      ys.foldl (fun acc x => op acc (g x)) a = op a (ys.foldl (fun acc x => op acc (g x)) e) := by
+    intro ys
+    induction ys with
+    | nil => intro a; simp [idr]
+    | cons y ys ih => intro a; simp only [List.foldl_cons]; rw [ih (op a (g y)), ih (op e (g y)), idl, assoc]
+  induction s generalizing xs with
+  | leaf => rfl
+  | node k l r ihl ihr =>
+    simp only [parFold]
+    rw [ihl, ihr, ← key, ← List.foldl_append, List.take_append_drop]
+
+/-- …and NOT when the initial accumulator is not the identity: it is folded in once per piece
+    (the shape of the seeded change S1-m1) -/
+theorem parFold_init_not_identity :
+    parFold (.node 1 .leaf .leaf) 2 (fun acc x => acc * x) (· * ·) [3, 5]
+      ≠ [3, 5].foldl (fun acc x => acc * x) 2 := by decide
+
 /-! non-vacuity: a concrete three-level schedule on a concrete list -/
 example : parMap (.node 2 (.node 1 .leaf .leaf) (.node 5 .leaf .leaf)) (· * 2) [1, 2, 3, 4, 5]
     = [2, 4, 6, 8, 10] := by decide
